@@ -381,7 +381,7 @@ ES_COVER = {
             ("{1}", "{7}", 3, 0, '{"upgrade","close","window","late","closewin","lastonly"}')),
     "poll": (("{1}", "{}", 3, 0, '{"overlap","peer","close","abort","window","dwindow","cwindow","lastonly"}'),
              ("{1,2}", "{7}", 3, 0, '{"overlap","peer","close","abort","window","dwindow","cwindow","lastonly"}')),
-    "dreq": (("{}", "{7,8}", 1, 0, '{"dreq","close","overlap","closewin","lastonly"}'),
+    "dreq": (("{}", "{7,8}", 0, 0, '{"dreq","close","overlap","abort","closewin","lastonly"}'),
              ("{1}", "{7,8}", 1, 0, '{"dreq","close","overlap","abort","closewin","lastonly"}')),
 }
 
@@ -437,7 +437,7 @@ ES_LIVE = {
              ("{1,2}", 4, '{"overlap","peer","close","abort","window","dwindow","cwindow","ctimeout","heartbeat","nohist"}')),
     "upg": (("{1}", 3, '{"upgrade","window","close","heartbeat","ctimeout","closewin","late","nohist"}'),
             ("{1,2}", 3, '{"upgrade","window","close","heartbeat","ctimeout","closewin","late","nohist"}')),
-    "dreq": (("{1}", 2, '{"dreq","close","overlap","abort","closewin","ctimeout","nohist"}'),
+    "dreq": (("{}", 1, '{"dreq","close","overlap","abort","closewin","ctimeout","nohist"}'),
              ("{1}", 3, '{"dreq","pt","close","overlap","abort","closewin","ctimeout","heartbeat","nohist"}')),
 }
 ES_LIVE_DEVS = [
@@ -470,6 +470,25 @@ def es_liveness(ctx):
     ctx.extra["liveness_properties_checked"] = ES_LIVE_ALL.split()
 
 
+FAULTS = {"post.overlap", "poll.overlap", "poll.abort", "post.abort", "peerclose"}
+
+
+def stall_prone(beh):
+    """A simulated behaviour in which a second transport fault arrives while the OnClose started by the first is still held at a
+    gate: the second would wait on the one-time listener's sync.Once held by the first (an artefact of parking there; the
+    transition cover drops such transitions the same way, tools/tcover.py `stalls`)."""
+    held = False
+    for a in beh:
+        x = a.get("a")
+        if x in ("onclose.finish", "onclose.rest"):
+            held = False
+        elif x in FAULTS or (x == "pollwrite" and a.get("ok") is False):
+            if held:
+                return True
+            held = True
+    return False
+
+
 def eng_run(ctx, fams, nrandom_q=60, nrandom_t=900, extra_fams=()):
     """model-check EioSession for the families, replay simulated behaviours + seeded scripts, monitor with EioMon."""
     q = ctx.quick
@@ -484,6 +503,9 @@ def eng_run(ctx, fams, nrandom_q=60, nrandom_t=900, extra_fams=()):
         M.tlc_model(ctx, "EioSession", es_cfg(*c), "es_" + fam, timeout=2400, coverage=not q)
         behs = M.tlc_simulate(ctx, "EioSession", es_cfg(*c, inv="Emit").replace("VIEW view\n", ""), "sim_" + fam,
                               num=6 if q else 60, depth=32, seed=ctx.seed, cap=120 if q else 2500)
+        nb = len(behs)
+        behs = [b for b in behs if not stall_prone(b)]
+        ctx.extra["simulated_behaviours_dropped_as_stall_prone"] = ctx.extra.get("simulated_behaviours_dropped_as_stall_prone", 0) + nb - len(behs)
         # the counterexamples of the deviations are schedules on which a regression would show: replay them as well
         behs = list(getattr(ctx, "devbehs", [])) + behs + es_cover(ctx, fam)
         ctx.extra["behaviours_replayed"] = ctx.extra.get("behaviours_replayed", 0) + len(behs)
@@ -612,7 +634,7 @@ def eng_prop(pid, fams, extra=(), nq=60, nt=900, race=False, reg=False):
 
 
 eng_prop("C01", ["flow", "upg"], extra=("direct",), race=True)
-eng_prop("C02", ["flow", "poll"], extra=("direct",))
+eng_prop("C02", ["flow", "poll", "dreq"], extra=("direct",))
 eng_prop("C03", ["life"], extra=("direct",), nq=90, race=True, reg=True)
 eng_prop("C04", ["life"], nq=90, race=True, reg=True)
 BEAT_CFG = ("SPECIFICATION Spec\nCONSTANTS PI = %d PT = %d MaxNow = %d Delays = %s\n"
@@ -630,7 +652,7 @@ def c07(ctx):
     return M.finish(ctx, rule="timed heartbeat model Beat.tla checked exhaustively over a grid of pong delays incl. the deadline; real sessions "
                     "(polling and websocket, revisions 3 and 4, 9 interval/timeout pairs) driven on the same grid under the virtual clock", evs=evs)
 eng_prop("C08", ["upg"], extra=("direct",), nq=90)
-eng_prop("C11", ["poll"], extra=("direct",), nq=90)
+eng_prop("C11", ["poll", "dreq"], extra=("direct",), nq=90)
 eng_prop("C12", ["life", "poll"], extra=("grace", "direct"), reg=True)
 eng_prop("C18", ["flow"], extra=("reent", "direct"), nq=90)
 
@@ -724,10 +746,10 @@ def c05(ctx):
 def hs_cfg(quick, emit, inv="TableOK"):
     if quick:
         dom = ('PIs = {25000, 300} PTs = {20000} MaxPayloads = {1000000, 5000} EnabledSets = {"p","pw","pwt","w"} AllowUpgrades = {TRUE, FALSE}\n'
-               ' Eio3s = {TRUE, FALSE} Initials = {"none","text","binary"} Transports = {"polling","websocket","webtransport"} Eios = {"4","3","absent","3then4","4then3"} B64s = {FALSE, TRUE}\n')
+               ' Eio3s = {TRUE, FALSE} Initials = {"none","text","binary"} Transports = {"polling","websocket","webtransport"} Eios = {"4","3","absent","3then4","4then3","5","04"} B64s = {FALSE, TRUE}\n')
     else:
         dom = ('PIs = {25000, 300} PTs = {20000, 200} MaxPayloads = {1000000, 5000} EnabledSets = {"p","pw","pwt","pt","w"} AllowUpgrades = {TRUE, FALSE}\n'
-               ' Eio3s = {TRUE, FALSE} Initials = {"none","text","binary"} Transports = {"polling","websocket","webtransport"} Eios = {"4","3","absent","3then4","4then3"} B64s = {FALSE, TRUE}\n')
+               ' Eio3s = {TRUE, FALSE} Initials = {"none","text","binary"} Transports = {"polling","websocket","webtransport"} Eios = {"4","3","absent","3then4","4then3","5","04","40","+4","4.0","four"} B64s = {FALSE, TRUE}\n')
     return "SPECIFICATION Spec\nCONSTANTS %s Emit = %s\nINVARIANTS %s\n" % (dom, emit, inv)
 
 
